@@ -103,7 +103,8 @@ let parse_event s =
   | _ -> failwith ("bad event " ^ s)
 
 let out_strings outs =
-  let ds = List.filter_map (function ODown dl -> Some (Printf.sprintf "%s:%d:%s:%d" (hex_of_bytes dl.dl_raw) (int_of_n dl.dl_rx1delay) (hx dl.dl_gw.g_eui) (int_of_n dl.dl_gw.g_clock)) | _ -> None) outs in
+  let ds = List.filter_map (function ODown dl -> Some (Printf.sprintf "%s:%d:%s:%d:%s:%d:%d:1" (hex_of_bytes dl.dl_raw) (int_of_n dl.dl_rx1delay) (hx dl.dl_gw.g_eui) (int_of_n dl.dl_gw.g_clock)
+      (ocaml_string_of dl.dl_radio.r_datr) (int_of_n dl.dl_radio.r_chan) (int_of_n dl.dl_radio.r_rfch)) | _ -> None) outs in
   let ps = List.filter_map (function OPub p -> Some (Printf.sprintf "%s:%s:%s:%s" (hx p.pb_app) (hx p.pb_eui) (hex_of_bytes p.pb_payload) (hx p.pb_gw)) | _ -> None) outs in
   "D[" ^ String.concat ";" (List.sort compare ds) ^ "] P[" ^ String.concat ";" (List.sort compare ps) ^ "]"
 
